@@ -136,6 +136,9 @@ def check_config(ctx, F, tag):
         ctx.ob("C11.R3.who-may-construct", TYPES[adt] + tag, loc(F.adt(adt)["span"]), not extra and found, "who-may-construct",
                "%s aggregates in %s; outside the builder/loader funnel: %s" % (TYPES[adt], sorted(x.split("::")[-1] + "@" + x.split(" ")[0][-12:] for x in found), extra))
         ctx.floor("constructors-" + TYPES[adt] + tag, 2)
+    # builder call decompositions of the same run list give the same vector only if the builder's tied fields move together
+    import c16
+    c16.check_comutation(ctx, F, tag, prefix="C11.R3.builder")
     # the sparse builder's parameters depend only on (universe, ones)
     gp = F.fn("sparse_vector::SparseBuilder::get_params")
     ctx.ob("C11.R3.sparse-params-from-len-ones", "sparse_vector::SparseBuilder::get_params" + tag, loc(gp["span"]), gp["sig"].startswith("fn(usize, usize)"), "signature",
